@@ -1096,7 +1096,9 @@ class Grid(object):
         if align_corners:
             spacing = (self.extent() - self.spacing()) / (size - 1)
             grid._spacing = torch.where(self._size.gt(0), spacing, self._spacing)
-            assert torch.allclose(grid.origin(), self.origin())
+            # origin() is a difference of terms of this magnitude, compare relative to it
+            atol = 1e-5 * (self._center.abs().max() + self.extent().max()).item()
+            assert torch.allclose(grid.origin(), self.origin(), atol=atol)
         else:
             spacing = self.extent() / size
             grid._spacing = torch.where(self._size.gt(0), spacing, self._spacing)
